@@ -610,9 +610,12 @@ def shapes_for(kk, ww):
         "N-last": clean[5:2 * kk + 8] + b"N",
         "ordinary": clean[3:2 * kk + 9 + (ww or 0)],
     }
+    sh["k-1+N"] = clean[4:4 + kk - 1] + b"N"
     if ww:
         sh["w-1"] = clean[7:7 + ww - 1]
         sh["w"] = clean[2:2 + ww]
+        sh["w-1+N"] = clean[6:6 + ww - 1] + b"N"
+        sh["N+w-1+N"] = b"N" + clean[1:1 + ww - 1] + b"N"
     else:
         sh["k+1"] = clean[9:9 + kk + 1]
         sh["N-middle"] = clean[:kk] + b"N" + clean[4:4 + kk]
